@@ -334,7 +334,8 @@ def cases_for(name):
 
 def check_name(name):
     w = _W
-    res = {"name": name, "generated": 0, "admitted": 0, "no_completion": 0, "completions": 0, "execs": 0, "fails": []}
+    res = {"name": name, "generated": 0, "admitted": 0, "no_completion": 0, "completions": 0, "execs": 0, "failing": 0, "fails": []}
+    first = {}  # one detailed record per (kind, typed style, closed, failure class); the rest is counted
     for kind in ("file", "dir"):
         w.make(name, kind)
         try:
@@ -361,14 +362,18 @@ def check_name(name):
                     obs = exec_cache[new]
                     sig = signature(obs, name, kind)
                     if sig is not None:
-                        res["fails"].append(
-                            {
-                                "name": name, "kind": kind, "style": style, "closed": closed, "typed_prefix": p,
-                                "spelling": how, "line": line, "cursor": cursor, "completion": text,
-                                "prefix_len": plen, "spliced": new, "observed": obs, "sig": sig,
-                                "emitted": emitted_style(text),
-                            }
-                        )
+                        res["failing"] += 1
+                        fk = (kind, style, closed, sig_class(sig))
+                        if fk in first:
+                            first[fk]["same_class_cases"] += 1
+                            continue
+                        first[fk] = {
+                            "name": name, "kind": kind, "style": style, "closed": closed, "typed_prefix": p,
+                            "spelling": how, "line": line, "cursor": cursor, "completion": text,
+                            "prefix_len": plen, "spliced": new, "observed": obs, "sig": sig,
+                            "emitted": emitted_style(text), "same_class_cases": 1,
+                        }
+                        res["fails"].append(first[fk])
         finally:
             w.remove(name, kind)
     return res
@@ -602,7 +607,7 @@ def run(ctx):
     tot = collections.Counter()
     fails = []
     for r in res:
-        for k in ("generated", "admitted", "no_completion", "completions", "execs"):
+        for k in ("generated", "admitted", "no_completion", "completions", "execs", "failing"):
             tot[k] += r[k]
         fails.extend(r["fails"])
     dump = os.environ.get("XV_C18_DUMP")
@@ -610,17 +615,24 @@ def run(ctx):
         with open(dump, "w") as f:
             json.dump(fails, f, indent=0)
     classified = classify_roundtrip(fails)
+    per_key = collections.Counter()
+    cases_per_key = collections.Counter()
     for key, m, f in classified:
-        exp = [f["name"]] if f["kind"] == "file" else [f["name"], f["name"] + "/"]
+        cases_per_key[key] += f["same_class_cases"]
+    for key, m, f in classified:  # names come simplest-first, so the first record of a key is its smallest
+        per_key[key] += 1
+        if per_key[key] > 3:
+            continue
         ctx.violation(
             key=key,
             clause="completed text is read back as exactly one argument equal to the name",
             case={"part": "roundtrip", "name": f["name"], "kind": f["kind"], "line": f["line"], "cursor": f["cursor"],
                   "style": f["style"], "typed_prefix": f["typed_prefix"], "closed": f["closed"], "minimal_name": m},
             observed={"completion": f["completion"], "prefix_len": f["prefix_len"], "spliced_line": f["spliced"], "argv_calls": f["observed"]},
-            expected={"argv_calls": [[e] for e in exp][:1] if f["kind"] == "file" else "one call with argv == [name] or [name + '/']"},
+            expected={"argv_calls": [[f["name"]]] if f["kind"] == "file" else "one call with argv == [name] or [name + '/']"},
+            note=f"{cases_per_key[key]} failing completions are attributed to this key in this run",
         )
-    ctx.log(f"part 1: {dict(tot)}; failing completions {len(fails)} in {len({k for k, _, _ in classified})} keys")
+    ctx.log(f"part 1: {dict(tot)}; failing completions {tot['failing']} in {len(per_key)} keys")
     nontrivial_names = sum(1 for r in res if r["completions"] > 0)
 
     # ---- part 2
@@ -666,7 +678,7 @@ def run(ctx):
 
     # ---- evidence
     for n in common.pick_samples([r for r in res if r["completions"]], ctx.seed, 4):
-        ctx.sample({"part": "roundtrip", "name": n["name"], "admitted_cases": n["admitted"], "completions_executed": n["completions"], "failing": len(n["fails"])})
+        ctx.sample({"part": "roundtrip", "name": n["name"], "admitted_cases": n["admitted"], "completions_executed": n["completions"], "failing": n["failing"]})
     ctx.sample({"part": "analyser", "text": "a 'b", "cursor": 4, "result": "command context, prefix 'b', opening quote \"'\""})
     ctx.coverage.update(
         evaluations=tot["completions"] + t2["parses"],
@@ -688,7 +700,7 @@ def run(ctx):
         cases_without_completion=tot["no_completion"],
         completions_spliced=tot["completions"],
         lines_executed=tot["execs"],
-        roundtrip_failures=len(fails),
+        roundtrip_failures=tot["failing"],
         analyser_strings=t2["strings"],
         analyser_parses=t2["parses"],
         analyser_bad=sum(bad_counts.values()),
